@@ -302,11 +302,17 @@ func (h *hist) addSub(name string, excl, exact bool, nLis int) *subRec {
 	if joining {
 		joinSnap = h.f.current(wk) // quiescent: equals what the registry holds
 	}
+	g0, w0 := h.f.calls(wk)
 	sub, err := discov.NewSubscriber([]string{h.ep}, h.prefix, opts...)
 	if err != nil {
 		panic("c13 harness: NewSubscriber: " + err.Error())
 	}
 	s.sub = sub
+	// the watch is started from a goroutine: wait for its Watch call so that no harness
+	// action overlaps with go-zero's own start-up
+	if !joining && !h.f.waitCalls(wk, g0+1, w0+1) {
+		h.inconclusive("watchdog: no Get+Watch after NewSubscriber")
+	}
 	s.m = newMirror(excl, wk, pos)
 	if joining {
 		s.m.consume([]titem{{kind: tJoin, snap: joinSnap}})
@@ -346,9 +352,13 @@ func (h *hist) addResolver(name string) *subRec {
 		joinSnap = h.f.current(h.pwk)
 	}
 	s := &subRec{name: name, mode: "resolver", wk: h.pwk, res: &resRec{lisRec: *newLis()}}
+	g0, w0 := h.f.calls(h.pwk)
 	rs, err := b.Build(gresolver.Target{URL: *u}, s.res, gresolver.BuildOptions{})
 	if err != nil {
 		panic("c13 harness: discov Build: " + err.Error())
+	}
+	if !joining && !h.f.waitCalls(h.pwk, g0+1, w0+1) {
+		h.inconclusive("watchdog: no Get+Watch after resolver Build")
 	}
 	s.rs = rs
 	s.m = newMirror(false, h.pwk, pos)
@@ -501,7 +511,7 @@ func (h *hist) witness(s *subRec, by string, got []string, store map[string]stri
 func (h *hist) report(s *subRec, by string, got []string, store map[string]string, mms []mismatch) {
 	for _, mm := range mms {
 		key := "C13/" + mm.kind + "/" + h.classOf(s, mm)
-		if s.res != nil {
+		if _, tainted := s.m.taintVal[mm.val]; s.res != nil && !tainted {
 			key = "C13/resolver-" + mm.kind + "/" + h.classOf(s, mm)
 		}
 		h.dead = true
